@@ -342,6 +342,32 @@ def r3_invalid_cache_reaches_fallback(ctx):
         ctx.ob("C14.R3", f"{IMP}::_cache_bytecode::a cache that cannot be written does not fail the import", IMP, c.lineno, ok,
                "" if ok else "self.set_data(...) is not covered by a handler for OSError: with an unwritable cache location the namespace compiles and runs, and then the import raises from the cache write",
                witness="sys.pycache_prefix below a regular file: importing a .lpy namespace raises NotADirectoryError, a .py module imports fine")
+    # "truncated at any byte offset as a crash during writing would leave it": that is only what a crash
+    # leaves if the rewrite starts from an empty file (or replaces the file atomically).  Overwriting an
+    # existing cache in place leaves, after a partial write, the new header in front of the old payload
+    # -- a well-formed cache for the new source that runs the old code.
+    sdm = P.find_def(ctx.py(IMP), "BasilispImporter.set_data") or ctx.fn(IMP, "BasilispImporter.set_data")
+    opens = [c for c in P.calls(sdm) if P.un(c.func) in ("open", "os.open", "io.open", "os.fdopen")]
+    if not opens:
+        raise AnalysisError("set_data no longer opens the cache file itself")
+    replaces = any(P.un(c.func) in ("os.replace", "os.rename") for c in P.calls(sdm))
+    for c in opens:
+        f = P.un(c.func)
+        if f in ("open", "io.open", "os.fdopen"):
+            target = c.args[0] if c.args else None
+            if isinstance(target, ast.Call) and P.un(target.func) == "os.open":
+                continue  # judged at the inner os.open
+            mode = next((k.value for k in c.keywords if k.arg == "mode"), c.args[1] if len(c.args) > 1 else None)
+            m = mode.value if isinstance(mode, ast.Constant) else None
+            ok = replaces or (isinstance(m, str) and "w" in m)
+            how = f"mode {m!r}"
+        else:
+            flags = P.un(c.args[1]) if len(c.args) > 1 else ""
+            ok = replaces or "O_TRUNC" in flags or "O_EXCL" in flags
+            how = f"flags {flags}"
+        ctx.ob("C14.R3", f"{IMP}::set_data::the cache file is rewritten from empty ({P.un(c.func)})", IMP, c.lineno, ok,
+               "" if ok else f"the cache is opened with {how}: an existing cache is overwritten in place, so a write that stops part-way leaves the new header followed by the old payload -- every later import runs the old code and never recompiles",
+               witness="cache of v1 exists, source becomes v2, the rewrite is cut after 64 bytes (ENOSPC, kill): later processes load v1's code for v2's source")
     wc = [c for c in P.calls(xm) if P.un(c.func) == "_basilisp_bytecode"]
     ok = bool(wc) and [P.un(a) for a in wc[0].args[:2]] == ["path_stats['mtime']", "path_stats['size']"]
     ctx.ob("C14.R3", f"{IMP}::_exec_module::header written from the same (mtime, size)", IMP, xm.lineno, ok, "" if ok else "the cache header is not written from path_stats mtime/size in order")
